@@ -3,6 +3,7 @@
 taking the witness history of each signature from a worker report given on the command line."""
 import json, sys
 DESC = {
+ "C06|ipfix|template|field_count-not-enforced|model=greedy-to-end-of-set": ("KF-C06-ipfix-field-count-not-enforced", "IPFIX template records are not delimited by their field_count: a set that ends inside a record, or that carries further records, is cached as one template whose field list runs to the end of the set", "src/variable_versions/ipfix.rs Template (fields parsed greedily; is_valid compares the field list with itself)", "same root as KF-C05-template-set-multi-record; delimiting by field_count changes what existing snapshots record"),
  "C04|v9|options-data|multi-record|model=first-record-only": ("KF-C04-options-data-multi-record", "V9 options data flowset with more than one record: only the first record is decoded, the others are reported as padding", "src/variable_versions/v9.rs OptionsData (result type holds one record)", "the public result type OptionsData has room for one record only; repairing it changes the public API and the snapshots"),
  "C05|ipfix|template-set|multi-record|model=greedy-merge": ("KF-C05-template-set-multi-record", "IPFIX template set carrying more than one template record is decoded as one template whose field list greedily swallows the following records (and only the first id is cached)", "src/variable_versions/ipfix.rs Template (fields parsed to end of set; FlowSetBody::Template holds one template)", "FlowSetBody::Template holds a single template; a repair changes the public result type"),
  "C05|ipfix|options-template-set|multi-record|model=first-only-rest-padding": ("KF-C05-options-template-set-multi-record", "IPFIX options-template set carrying more than one record: only the first is decoded and cached, the rest is reported as padding", "src/variable_versions/ipfix.rs OptionsTemplate / FlowSetBody::OptionsTemplate", "FlowSetBody::OptionsTemplate holds a single template; a repair changes the public result type"),
